@@ -21,7 +21,7 @@ var cpuVariants = []Variant{
 const c18MaxLen = 200
 
 func init() {
-	register(&Prop{ID: "C18", N: (c18MaxLen + 1) * 6, Quick: 150, Exhaustive: true, Variants: cpuVariants,
+	register(&Prop{ID: "C18", N: (c18MaxLen + 1) * 8, Quick: 150, Exhaustive: true, Variants: cpuVariants,
 		Assume: []string{"one-line scalar definitions (DESIGN Appendix C.3) are the reference", "guard pages + SetPanicOnFault observe loads past either end of the slice and any store to it; a stray load that stays inside the slice's own page before a flush-right slice is only seen in the flush-left placement, so both are used", "GODEBUG=cpu.*=off (honoured by golang.org/x/sys/cpu) selects the SSSE3 and scalar variants in separate worker processes"},
 		Rule:   "case = (length 0..200, content variant); for each case every hit position (each index and 'none') × every primitive (Memchr, Memchr2, Memchr3, MemchrPair, Memmem, MemchrDigit(At), MemchrWord/NotWord, MemchrInTable/NotInTable, IsASCII, CountNonASCII, FirstNonASCII, SelectRareBytes) × placements (flush-left and flush-right against PROT_NONE pages on read-only data, plus heap slices at alignments mod 64) × 3 CPU masks; one evaluation = one primitive call compared with its scalar definition; distinct_nontrivial = distinct (length, variant, position, primitive) grid points with a hit or a near-miss byte present",
 		Run:    runC18})
@@ -92,7 +92,9 @@ func runC18(w *W, i uint64) {
 	r := gen.Rng("C18", i)
 
 	// content variants: filler byte classes chosen so that the searched bytes do not occur unless placed
-	fillers := [][]byte{{'.'}, {0x00}, {0xff}, {' ', '-', '.', '!'}, {0x80, 0xfe, 0xc3}, {'.', ' ', 0x7f, 0x80}}
+	// the last two are near-miss fillers: bytes one bit / one step away from the needles 'x', 'Y', '7' (SWAR zero-byte
+	// tricks produce borrow artefacts exactly next to such bytes)
+	fillers := [][]byte{{'.'}, {0x00}, {0xff}, {' ', '-', '.', '!'}, {0x80, 0xfe, 0xc3}, {'.', ' ', 0x7f, 0x80}, {'y', 'X'}, {'y', 'X', '6', 'w', 'Z', '8', 0xf8, 0xd9}}
 	fill := fillers[variant%len(fillers)]
 	base := make([]byte, n)
 	for k := range base {
